@@ -27,9 +27,10 @@ type spec struct {
 	Ops   int    `json:"ops"`
 	Yield bool   `json:"yield"`
 	Rep   int    `json:"rep"`
-	Kind  string `json:"kind,omitempty"` // "" (mixer) | startonce | heldreply | dialpark
+	Kind  string `json:"kind,omitempty"` // "" (mixer) | startonce | heldreply | dialpark | dialopt
 	// heldreply: Mode dup|recv, QLen = WriteQLen, K = concurrent Sends, Ctx = context (not socket), Sim = simultaneous Sends on a second context
 	// dialpark:  Mode listener|socket (what is closed), Ev = hook event that occupies the accept loop, Pass = connections before it, K = Dials in progress, Ctx = dialers share one socket
+	// dialopt:   Mode hangup|close (what ends the scenario), Ev = outer|inner (TLS transports: the peer is silent before / after the TLS handshake), K = calls made while the Dial is parked
 	Mode string `json:"mode,omitempty"`
 	QLen int    `json:"qlen,omitempty"`
 	K    int    `json:"k,omitempty"`
@@ -86,9 +87,23 @@ func TestC11(t *testing.T) {
 			Ev: []string{"attaching", "attached"}[rnd.Intn(2)], Pass: rnd.Intn(3), K: 1 + rnd.Intn(3), Ctx: rnd.Intn(2) == 0, Rep: i}
 		cases = append(cases, mon.CaseSpec{Name: "dialpark/" + tr + "/" + sp.Mode, Spec: sp})
 	}
+	// option get/set, NewDialer/NewListener/OpenContext and Close on a socket one of whose dialers has a
+	// synchronous Dial parked in the transport (silent peer held by the harness)
+	doTrans := []string{"tcp", "ipc", "tls+tcp", "ws", "vt", "tcp", "wss", "inproc", "ipc", "tls+tcp"}
+	for i := 0; i < r.Pick(30, 400); i++ {
+		tr := doTrans[i%len(doTrans)]
+		sp := spec{Kind: "dialopt", Proto: dpProtos[rnd.Intn(len(dpProtos))], Tran: tr, Mode: []string{"hangup", "close"}[rnd.Intn(2)],
+			Ev: []string{"outer", "inner"}[rnd.Intn(2)], K: 4 + rnd.Intn(5), Rep: i}
+		if !hx.NeedsTLS(tr) {
+			sp.Ev = ""
+		}
+		cases = append(cases, mon.CaseSpec{Name: "dialopt/" + tr + "/" + sp.Mode, Spec: sp})
+	}
 	r.Run(cases, func(c *mon.Case) {
 		sp := c.Spec.(spec)
 		switch sp.Kind {
+		case "dialopt":
+			dialOpt(c, sp)
 		case "startonce":
 			startOnce(c, sp)
 		case "heldreply":
